@@ -4746,6 +4746,13 @@ class Entity(object, metaclass=EntityMeta):
                     else: attr.__set__(obj, val, undo_funcs)
             except:
                 for undo_func in reversed(undo_funcs): undo_func()
+                if getattr(obj, '_session_cache_', None) is cache:  # the object was registered: take it out again
+                    pk_index = cache_indexes[entity._pk_attrs_]
+                    if pkval is not None and pk_index.get(pkval) is obj: del pk_index[pkval]
+                    cache.objects.discard(obj)
+                    cache.for_update.discard(obj)
+                    for attr in entity._attrs_:
+                        if attr.is_collection: cache.modified_collections[attr].discard(obj)
                 raise
         if pkval is not None: cache_indexes[entity._pk_attrs_][pkval] = obj
         for key, vals in indexes_update.items(): cache_indexes[key][vals] = obj
